@@ -34,6 +34,9 @@ var families = map[string]genFn{
 	"oneonone": genOneOnOne,
 	"multidb": genMultiDB,
 	"cancel": genCancel,
+	"limit": genLimit,
+	"address": genAddress,
+	"snapshot": genSnapshot,
 }
 
 func main() {
